@@ -300,7 +300,11 @@ func (eng *Engine) initBufModels() {
 		vc := fr.vc
 		p := args[1].S
 		parr := vc.def("(Array (_ BitVec 64) (_ BitVec 8))", "wsrc", vc.readCell(st, vc.elemKey(u8), app("g_sarr", p)))
-		write(fr, b, c, args, st, reach, pos, app("g_slen", p), func(j string) string {
+		tlen := app("g_slen", p)
+		if k, ok := vc.knownLen[p]; ok {
+			tlen = bvConst(uint64(k), 64)
+		}
+		write(fr, b, c, args, st, reach, pos, tlen, func(j string) string {
 			return fmt.Sprintf("(select %s (bvadd (g_soff %s) %s))", parr, p, j)
 		})
 		return &Val{T: c.Signature().Results(), Tup: []Val{{T: intT, S: app("g_slen", p)}, {T: errT, S: "g_niliface"}}}
@@ -451,7 +455,9 @@ func (eng *Engine) initBufModels() {
 			}
 			vc.writeCell(st, vc.elemKey(u8), ref, arr)
 			n := bvConst(uint64(k.n), 64)
-			return &Val{T: c.Signature().Results().At(0).Type(), S: fmt.Sprintf("(g_mkslice %s (_ bv0 64) %s %s)", ref, n, n)}
+			res := vc.def("g_Slice", "bytes", fmt.Sprintf("(g_mkslice %s (_ bv0 64) %s %s)", ref, n, n))
+			vc.knownLen[res] = k.n
+			return &Val{T: c.Signature().Results().At(0).Type(), S: res}
 		}, nil)
 	}
 	for _, k := range []struct {
